@@ -35,7 +35,7 @@ ASSUMPTIONS = [
     "design of the terminated wrapper)",
 ]
 MUST_REACH = {"flag_pcode_pairs_covered": 2048, "compared": 3000, "reencoded_identical": 3000, "mutants_compared": 300,
-              "pcodes_covered": 4}
+              "pcodes_covered": 4, "te_face_bitfields_checked": 100, "fast_results_scribbled": 100}
 
 SER = T.ObjectUpdateCompressedDataSerializer
 TEMPLATE = SER.TEMPLATE
@@ -80,6 +80,31 @@ def compare(ctx, payload: bytes, origin, wit_extra, generated_value=None):
                       "fast reader and template decode different field values",
                       dict(wit, diffs=[(p, repr(a)[:80], repr(b)[:80]) for p, a, b in diffs[:6]]))
         return False
+    # decoding is a function of the payload alone: what a caller did to an earlier result (the tracker and addons edit decoded
+    # texture entries, extra params, ... in place) must not leak into the next decode of the same bytes
+    if origin == "generated" and ctx.counters.get("compared", 0) % 3 == 0:
+        try:
+            from .c09 import _scribble
+            scribbled = False
+            for k in ("TextureEntry", "ExtraParams", "NameValue", "PSBlock", "TextureAnim"):
+                v = fv.get(k) if isinstance(fv, dict) else None
+                if v is None:
+                    continue
+                if _scribble(v):
+                    scribbled = True
+            if scribbled:
+                ctx.count("fast_results_scribbled")
+                f2 = gen_spec.canon(Fast.read(payload))
+                if f2 != tcanon:
+                    diffs = gen_spec.diff_paths(tcanon, f2)
+                    fields = sorted({p.strip("/").split("/")[0].split("[")[0] for p, _, _ in diffs})
+                    ctx.violation("fast-decode-depends-on-history:" + ",".join(fields[:3]), "decoding the same payload again after a "
+                                  "caller edited the first result gives values that differ from the template's",
+                                  dict(wit, diffs=[(p, repr(a)[:80], repr(b)[:80]) for p, a, b in diffs[:6]]))
+                    return False
+        except Exception as e:
+            ctx.violation("fast-raises:repeat", "decoding the same payload a second time raised", dict(wit, exc=repr(e)[:300]))
+            return False
     # normalisation used by the object tracker must accept both results identically
     try:
         n1 = gen_spec.canon(normalize_object_update_compressed_data(payload))
@@ -158,7 +183,56 @@ def one_case(ctx, flags, pcode, cseed):
         compare(ctx, mutate(rng, payload), "mutant", wit)
 
 
+def ref_face_bits(faces):
+    """Independent reference for the texture-entry face bitfield: 7 faces per byte, most significant group first, every byte
+    but the last carries the continuation bit, no redundant leading group (what any other implementation emits)."""
+    packed = 0
+    for f in set(faces):
+        packed |= 1 << f
+    groups = []
+    while packed:
+        groups.append(packed & 0x7F)
+        packed >>= 7
+    groups.reverse()
+    return bytes((g | 0x80) if i < len(groups) - 1 else g for i, g in enumerate(groups))
+
+
+def te_face_bitfield(ctx):
+    """The payloads above are produced by the template itself, so a change to how the template WRITES a section is invisible
+    to them. The face bitfield inside the TextureEntry section therefore gets an independent reference."""
+    import hippolyzer.lib.base.serialization as se
+    rng = ctx.rng
+    sets = [(h,) for h in range(0, 45)]
+    for h in range(0, 45):
+        for _ in range(3):
+            lower = [f for f in range(h) if rng.random() < 0.3]
+            sets.append(tuple(lower + [h]))
+    sets.append(tuple(range(0, 7)))
+    sets.append(tuple(range(0, 14)))
+    for faces in sets:
+        ctx.ev()
+        ctx.count("te_face_bitfields_checked")
+        w = se.BufferWriter("<")
+        try:
+            w.write(T.TEFaceBitfield, faces)
+            got = bytes(w.copy_buffer())
+            back = se.BufferReader("<", ref_face_bits(faces)).read(T.TEFaceBitfield)
+        except Exception as e:
+            ctx.violation("te-face-bitfield-raises", "the texture-entry face bitfield codec raised", {"faces": list(faces), "exc": repr(e)[:200]})
+            continue
+        if got != ref_face_bits(faces):
+            ctx.violation("te-face-bitfield-not-canonical", "the face bitfield is not written in the format's (minimal) form, so "
+                          "re-encoding a payload that carries such an exception does not reproduce it",
+                          {"faces": list(faces), "written": got, "reference": ref_face_bits(faces)})
+        if tuple(back) != tuple(sorted(set(faces))):
+            ctx.violation("te-face-bitfield-decodes-wrong", "the reference encoding of a face set decodes to another set",
+                          {"faces": list(faces), "decoded": list(back)})
+        ctx.nontrivial(("te-faces", max(faces), len(faces)))
+
+
 def run(ctx):
+    if ctx.shard == 0:
+        te_face_bitfield(ctx)
     pcodes = list(T.PCode)
     n_content = ctx.pick(1, 8)
     idx = 0
